@@ -234,7 +234,7 @@ DEC_BAD = ["", " ", ".", "+", "-", "e5", "1e", "1e+", "1e5.", "1.2.3", "1ee5", "
            "00e999999999999999999", "0.0e1000000000000000000", "1,5", "0x10", "1.5f", "1d5", "²", "1²", "é", "1\ud800"]
 
 # ---------------------------------------------------------------- QName
-LOCALS = ["a", "x", "local", "A1", "a.b", "a-b", "a_b", "_a", "a·b", "été", "ü", "Ωmega", "名前", "a1-2.3_4", "int", "type", "a\u0301", "e\u0301t",
+LOCALS = ["x\u1680", "\u1680x", "a", "x", "local", "A1", "a.b", "a-b", "a_b", "_a", "a·b", "été", "ü", "Ωmega", "名前", "a1-2.3_4", "int", "type", "a\u0301", "e\u0301t",
           "a\u203fb", "a\u0387", "a\u0660", "\u3001x", "\u2070a", "a\u2070", "\u00aa", "a\u00b2", "a\u200c", "a\u0300\u0301", "x\u036f", "\u00c0\u00d6",
           "a\u0e31", "a\u093e", "nb\u0951", "k\u30fc"]
 BAD_LOCALS = ["", "1a", "-a", ".a", "a b", "a:b", "a\tb", " a", "a ", "a}", "{a", "a\xa0", "²", "a/b", "a#"]
@@ -623,7 +623,7 @@ def run(ck: Check):
         add({"op": "roundtrip", "type": "Decimal", "v": {"t": "Decimal", "v": v}}, kind="dec_ser", v=v)
 
     # ---------------- QName
-    fixed_q = [([["p", "urn:a"]], "p", "a\u0301"), ([], None, "a\u0301"), ([["p", "urn:a"]], "p", "x\u203fy")]
+    fixed_q = [([["p", "urn:a"]], "p", "x\u1680"), ([["p", "urn:a"]], "p", "a\u0301"), ([], None, "a\u0301"), ([["p", "urn:a"]], "p", "x\u203fy")]
     for n in range(120 * N + len(fixed_q)):
         if n < len(fixed_q):
             m, prefix, local = fixed_q[n]
@@ -644,7 +644,7 @@ def run(ck: Check):
     for _ in range(40 * N):
         x = "{" + r.choice(URIS) + "}" + r.choice(LOCALS + BAD_LOCALS)
         add({"op": "deser", "types": ["QName"], "s": x, "ns_map": None}, kind="qname_deser", sp=None, m=None)
-    fixed_v = [("http://www.w3.org/2001/XMLSchema-instance", "type", None), (None, "x", [[None, "urn:d"]]), ("urn:x-y", "a", None), ("urn:\u00fc", "x", None),
+    fixed_v = [("urn:a", "x\u1680", None), ("http://www.w3.org/2001/XMLSchema-instance", "type", None), (None, "x", [[None, "urn:d"]]), ("urn:x-y", "a", None), ("urn:\u00fc", "x", None),
                ("urn:a", "b", [["ns1", "urn:b"]]), ("urn:a", "b", [[None, "urn:a"]]), ("http://www.w3.org/2001/XMLSchema", "int", []),
                # generate_prefix (repo e811fed): a taken standard prefix, taken ns<k> candidates
                ("http://www.w3.org/2001/XMLSchema", "int", [["xs", "urn:o"]]), ("urn:c", "x", [["ns2", "urn:u"], ["ns3", "urn:v"], ["a", "urn:a"]]),
@@ -974,8 +974,8 @@ def run(ck: Check):
             for it in rej:
                 if it[0] in in_guard or it[0] in corr_ids:
                     fail("qname-xsd-valid-not-accepted", f"xs:QName {it[1]['s']!r} with ns_map={it[3]['m']} gave {it[2]}", {"op": it[1], "impl": it[2]})
-                else:  # clause 3: a name character XML allows and is_ncname rejects; the model reproduces it
-                    fail("qname-ncname-char-rejected", f"xs:QName {it[1]['s']!r} (ns_map={it[3]['m']}) rejected: {it[2]}", {"op": it[1], "impl": it[2]})
+                else:  # outside the guard: str.strip() removed the first/last character of the name (U+1680); the model reproduces it
+                    fail("qname-name-edge-stripped", f"xs:QName {it[1]['s']!r} (ns_map={it[3]['m']}) gave {it[2]}", {"op": it[1], "impl": it[2]})
         ck.cov["qname_valid_literals"] = count_true("val_qname", t_qsp, "is_valid_qname_case", sp_items, sp_terms)
         items = items_of("qname_ser2")
         terms = [f"({cstr(qtext(it[3]['uri'], it[3]['local']))}, {nsmap_term(it[3]['m'])}, "
@@ -997,6 +997,7 @@ def run(ck: Check):
             inputs_ok, clark_ok, default_ok, model_fails = (holds("rt_in", "qname_rt_inputs"), holds("rt_clark", "qname_rt_clark_ok"),
                                                             holds("rt_dflt", "qname_rt_default_ok"), holds("rt_model", "qname_model_rt_fails"))
             uri_plain = holds("rt_plain", "qname_rt_uri_plain")
+            edges_ok = holds("rt_edges", "qname_rt_edges_ok")
             excluded = 0
             for it in failing:
                 what = f"QName {qtext(it[3]['uri'], it[3]['local'])!r} ns_map={it[3]['m']} -> {str(it[2])[:160]}"
@@ -1011,6 +1012,8 @@ def run(ck: Check):
                     fail("qname-clark-uri-outside-ascii-subset", what, rp)
                 elif it[0] not in default_ok:
                     fail("qname-no-namespace-under-default-ns", what, rp)
+                elif it[0] not in edges_ok:
+                    fail("qname-name-edge-stripped", what, rp)
                 else:
                     fail("qname-roundtrip", what, rp)
             ck.cov["qname_roundtrip_inputs_outside_quantifier"] = excluded
